@@ -52,12 +52,13 @@ Print Assumptions C09_chunk_ends.
     [time.Sleep(d)] returns when the clock has advanced by at least [d], then every chunk is
     written (all three branches of the loop) at an instant of the request's wall clock
     ([nowMS] + time elapsed since [startUnixMS] was read) that is not before the millisecond in
-    which the chunk's last sample ends, chunks are written in order, and the loop does not fail. *)
+    which the chunk's last sample ends, chunks are written in order, and the loop does not fail.
+    For every chunk duration (also <= 0). *)
 Theorem C09_never_early : forall (clock : nat -> Z) (sleep : nat -> Z -> nat),
   (forall k, clock k <= clock (S k)) ->
   (forall k d, (k <= sleep k d)%nat /\ clock k + d <= clock (sleep k d)) ->
   forall fs st newTime newNr newDur C cs ts nowMS startTimeS k0,
-  0 < C < two63 -> 0 < ts -> 0 <= startTimeS -> wf_input fs newTime ->
+  C < two63 -> 0 < ts -> 0 <= startTimeS -> wf_input fs newTime ->
   chunkSegment fs st newTime newNr newDur C = Ok cs ->
   exists ws,
     writeChunked clock sleep ts nowMS startTimeS newTime k0 cs = Ok ws /\
@@ -167,36 +168,30 @@ Theorem C09_too_early_grid : forall availMS atoMS nowMS, 0 < atoMS ->
 Proof. exact tooEarly_spec. Qed.
 Print Assumptions C09_too_early_grid.
 
-(** Defect: an availabilityTimeOffset equal to the segment duration (more precisely
-    |(segDurMS - atoMS) * timescale| < 1000) makes chunkDur 0 and chunkSegment divides by it. *)
-Theorem C09_chunkdur_refuted : forall fs st newTime newNr newDur segDurMS atoMS ts,
-  Z.abs ((segDurMS - atoMS) * ts) < 1000 ->
-  chunkSegment fs st newTime newNr newDur (chunkDurOf segDurMS atoMS ts)
-  = Panic "chunkSegment:segMeta.newDur/uint32(chunkDur)".
-Proof. exact chunkdur_panic. Qed.
-Print Assumptions C09_chunkdur_refuted.
+(** chunkSegment cannot fail or panic, whatever the chunk duration (repair 1ce6842; before it a
+    chunk duration of 0 - availabilityTimeOffset equal to the segment duration - divided by zero). *)
+Theorem C09_chunkSegment_total : forall fs st newTime newNr newDur C,
+  exists cs, chunkSegment fs st newTime newNr newDur C = Ok cs.
+Proof. exact chunkSegment_total. Qed.
+Print Assumptions C09_chunkSegment_total.
 
-(** An availabilityTimeOffset beyond the segment duration makes chunkDur negative: every sample
-    becomes a chunk of its own (no panic unless chunkDur is a multiple of 2^32). *)
-Theorem C09_chunkdur_negative : forall fs st newTime newNr newDur C cs,
-  C < 0 -> Forall (fun s => 0 <= s_dur s) fs ->
+(** What a chunk duration <= 0 does (availabilityTimeOffset >= segment duration; precisely
+    (segDurMS - atoMS) * timescale < 1000): every sample becomes a chunk of its own, paced with its
+    own duration; the samples are all there (also zero-duration ones), in order, restamped. *)
+Theorem C09_chunkdur_nonpositive : forall fs st newTime newNr newDur C cs,
+  C <= 0 -> wf_input fs newTime ->
   chunkSegment fs st newTime newNr newDur C = Ok cs ->
-  length cs = length fs /\ Forall (fun c => length (c_samples c) = 1%nat) cs.
-Proof. exact chunkSegment_negative. Qed.
-Print Assumptions C09_chunkdur_negative.
+  cs = per_sample newNr st newTime fs /\
+  samples_of cs = stamped newTime fs /\ length cs = length fs /\
+  Forall (fun c => c_seq c = newNr /\ length (c_samples c) = 1%nat /\ c_dur c = chunk_span c) cs /\
+  styp_first st cs.
+Proof. exact chunkSegment_nonpositive. Qed.
+Print Assumptions C09_chunkdur_nonpositive.
 
-(** The caller with the proposed guard ([if chunkDur <= 0] -> 400, proposed_fixes/C09-chunkdur-guard.diff):
-    identical on the property's domain, refuses every chunk duration <= 0 and cannot panic for
-    any chunk duration below 2^32 ticks. *)
-Theorem C09_guard_same_on_domain : forall g fs st newTime newNr newDur C,
-  0 < C -> chunksOf g fs st newTime newNr newDur C = chunkSegment fs st newTime newNr newDur C.
-Proof. exact chunksOf_domain. Qed.
-Print Assumptions C09_guard_same_on_domain.
-
-Theorem C09_guard_safe : forall fs st newTime newNr newDur C,
-  C < two32 -> is_panic (chunksOf true fs st newTime newNr newDur C) = false.
-Proof. exact chunksOf_guarded_safe. Qed.
-Print Assumptions C09_guard_safe.
+Theorem C09_chunkdur_zero : forall segDurMS atoMS ts,
+  Z.abs ((segDurMS - atoMS) * ts) < 1000 -> chunkDurOf segDurMS atoMS ts = 0.
+Proof. exact chunkDur_zero. Qed.
+Print Assumptions C09_chunkdur_zero.
 
 (** Non-vacuity: 2 s segment of 8 samples, availabilityTimeOffset 1.25 s at timescale 1000
     (chunkDur 750): chunks of 3, 3 and 2 samples; a clock ticking 7 ms per step with an exact
